@@ -7,7 +7,7 @@ From LC Require Import AstDefs GenDefs GramDefs GramSpec GramProofs ReadDefs CGr
   EvalDefs EvalProofs ReadProofs LexProofs GenProofs GenWitness.
 From Coq Require Import QArith.
 Local Close Scope Q_scope.
-From LC Require Import ScaleDefs ScaleProofs AnalysisDefs AnalysisSpec ExternalDefs OrderDefs OrderProofs EndToEndProofs.
+From LC Require Import ScaleDefs ScaleProofs AnalysisDefs AnalysisSpec ExternalDefs OrderDefs OrderProofs EndToEndProofs GenTok EndToEndFunProofs.
 Local Open Scope string_scope.
 
 (** * The text printed for an AST of the safe class is read as the equation says.
@@ -174,6 +174,52 @@ Example C03_end_to_end_nonvacuous :
   /\ gen_C (scale_expr env3 e2e_a) = "0.01*p+q*-(2.0-0.01*p)".
 Proof. exact EndToEndProofs.end_to_end_nonvacuous. Qed.
 Print Assumptions C03_end_to_end_nonvacuous.
+
+(** the same, widened to one- and two-parameter function applications and to the relational / logical operators
+    ([frag2 p]: infix in the C profile, helper calls in the Python profile), with the functions and operators
+    interpreted alike on both sides; the printer-class premise is needed (C03_end_to_end_premise_needed) *)
+Theorem C03_end_to_end_fun_C : forall (S : senv) (Es : aenv) (Et : env),
+  (forall v, (0 < sf S v)%Q) ->
+  (forall v, a_lit Es (sf_text S v) = Qcanon.Q2Qc (sf S v)) ->
+  (forall v, a_lit Es (sf_inv_text S v) = Qcanon.Qcinv (Qcanon.Q2Qc (sf S v))) ->
+  (forall v, e_var Et v = a_var Es v) ->
+  (forall s, eval Et (lit_tree s) = a_lit Es s) ->
+  forall a,
+  (forall t f v x, fun1_name profile_C t = Some f -> e_f1 Et f x = a_fun Es t v x (Qcanon.Q2Qc 0)) ->
+  (forall t f v x y, fun2_name profile_C t = Some f -> e_f2 Et f x y = a_fun Es t v x y) ->
+  (forall t tok op q v x y, infix_info profile_C t = Some (tok, op, q) -> arith t = false -> a_fun Es t v x y = eval_bin op x y) ->
+  frag2 profile_C a = true -> safeC (scale_expr S a) = true ->
+  exists T, readC (gen_C (scale_expr S a)) = Some T /\ eval Et T = aeval (local_env S Es) a.
+Proof. exact EndToEndFunProofs.end_to_end_fun_C. Qed.
+Print Assumptions C03_end_to_end_fun_C.
+
+Theorem C03_end_to_end_fun_Py : forall (S : senv) (Es : aenv) (Et : env),
+  (forall v, (0 < sf S v)%Q) ->
+  (forall v, a_lit Es (sf_text S v) = Qcanon.Q2Qc (sf S v)) ->
+  (forall v, a_lit Es (sf_inv_text S v) = Qcanon.Qcinv (Qcanon.Q2Qc (sf S v))) ->
+  (forall v, e_var Et v = a_var Es v) ->
+  (forall s, eval Et (lit_tree s) = a_lit Es s) ->
+  forall a,
+  (forall t f v x, fun1_name profile_Py t = Some f -> e_f1 Et f x = a_fun Es t v x (Qcanon.Q2Qc 0)) ->
+  (forall t f v x y, fun2_name profile_Py t = Some f -> e_f2 Et f x y = a_fun Es t v x y) ->
+  (forall t tok op q v x y, infix_info profile_Py t = Some (tok, op, q) -> arith t = false -> a_fun Es t v x y = eval_bin op x y) ->
+  frag2 profile_Py a = true -> safePy (scale_expr S a) = true ->
+  exists T, readPy (gen_Py (scale_expr S a)) = Some T /\ eval Et T = aeval (local_env S Es) a.
+Proof. exact EndToEndFunProofs.end_to_end_fun_Py. Qed.
+Print Assumptions C03_end_to_end_fun_Py.
+
+Example C03_end_to_end_fun_nonvacuous :
+  frag2 profile_C e2f_a = true /\ frag2 profile_Py e2f_a = true
+  /\ safeC (scale_expr env3 e2f_a) = true /\ safePy (scale_expr env3 e2f_a) = true
+  /\ reads_asC (gen_C (scale_expr env3 e2f_a)) (scale_expr env3 e2f_a) = true.
+Proof. exact EndToEndFunProofs.end_to_end_fun_nonvacuous. Qed.
+Print Assumptions C03_end_to_end_fun_nonvacuous.
+
+Theorem C03_end_to_end_premise_needed :
+  frag2 profile_C e2f_rel = true /\ safeC (scale_expr env3 e2f_rel) = false
+  /\ reads_asC (gen_C (scale_expr env3 e2f_rel)) (scale_expr env3 e2f_rel) = false.
+Proof. exact EndToEndFunProofs.end_to_end_premise_needed. Qed.
+Print Assumptions C03_end_to_end_premise_needed.
 
 (** * Emission order (generator.cpp generateEquationCode and the four method bodies: the transcription is C20's
     ExternalDefs, reused; tied exactly to the sequence of array entries assigned by each generated method of every
